@@ -54,6 +54,31 @@ impl Model {
         self.data.config.surfaces.clone()
     }
 
+    /// Deep copy of the in-memory model made field by field, without the model codec
+    /// (`write_model`/`read_model`): the feature tables, id counters, templates, rewriters and
+    /// user entries are cloned, the raw CRF model goes through rucrf's own codec and the seed
+    /// dictionary through the dictionary codec.
+    pub fn verif_twin(&self) -> Result<Model> {
+        let c = &self.data.config;
+        let mut dict_bytes = vec![];
+        c.dict.write(&mut dict_bytes)?;
+        let config = TrainerConfig {
+            feature_extractor: c.feature_extractor.clone(),
+            unigram_rewriter: c.unigram_rewriter.clone(),
+            left_rewriter: c.left_rewriter.clone(),
+            right_rewriter: c.right_rewriter.clone(),
+            dict: crate::Dictionary::read(dict_bytes.as_slice())?,
+            surfaces: c.surfaces.clone(),
+        };
+        let (raw_model, _): (rucrf::RawModel, usize) =
+            bincode::decode_from_slice(&self.verif_raw_model_bytes(), common::bincode_config())?;
+        Ok(Model {
+            data: crate::trainer::model::ModelData { config, raw_model },
+            merged_model: None,
+            user_entries: self.user_entries.clone(),
+        })
+    }
+
     /// Label ids (1-origin) of the user entries in the order they were read.
     pub fn verif_user_labels(&self) -> Vec<u32> {
         self.user_entries.iter().map(|e| e.2.get()).collect()
